@@ -78,7 +78,8 @@ def run(tier, seed, replay_file=None):
     chk = gv.Check(PROP, tier, seed, level="proof")
     load_known_fallback(chk, PROP)
     proof = gv.proof_status(PROP, REQ_PROPS)
-    ncases = 1800 if tier == "quick" else 12000
+    # quick: 1800 histories on the pinned tree, up to 5400 when /repo has moved; thorough: 12000
+    ncases = gv.scaled(PROP, tier, 1800, 5400, chk) if tier == "quick" else 12000
     ok, out, binp = gv.cargo_build("c01")
     if not ok:
         chk.violation("build", {"what": "the harness no longer builds against /repo's working tree", "log": out[-3000:],
